@@ -9,6 +9,9 @@ expansion data".
 * Zr: dL/L drops from 0.617 % to 0.482 % at the 1137 K phase change, so every beta-phase temperature with
   dL/L in (0.482, 0.617) has an alpha-phase partner with the same value (real-number statement; in floating point an
   exact tie needs the two cubics to round to the same double).
+* UraniumOxide / UO2 / MOX: the high-temperature cubic starts 1.1e-3 percentage points below the end of the
+  low-temperature cubic at 923 K, so temperatures just above 923 K tie with temperatures just below (real-number
+  statement, e.g. T0 = 649 C and T1 = 650.03.. C).
 
 Property text (C03): 'Changing the temperature of a solid component ... of any library material, anywhere in the
 material's valid range and through any sequence of intermediate temperatures, conserves its mass per unit height'.
@@ -21,7 +24,17 @@ from spec import *
 Circle = repo("armi.reactor.components.basicShapes:Circle")
 TZM = repo("armi.materials.tZM:TZM")
 Zr = repo("armi.materials.zr:Zr")
+UraniumOxide = repo("armi.materials.uraniumOxide:UraniumOxide")
 K0 = 273.15
+
+
+class Nuc:
+    """stand-in for a NuclideBase (weight, abundance): only read by UraniumOxide.setDefaultMassFracs"""
+
+
+TABLE = {"U235": new(Nuc, weight=235.043929, abundance=0.007204), "U238": new(Nuc, weight=238.050788, abundance=0.992742),
+         "O": new(Nuc, weight=15.9994, abundance=0.0)}
+OV = {"armi.nucDirectory.nuclideBases:byName": "TABLE"}
 
 
 class PMap:
@@ -77,4 +90,13 @@ def zr_component_is_never_refused_in_range(T0: float, T1: float):
     (lo, hi), u = Zr.propertyValidTemperature["linear expansion percent"]
     assume(lo <= T0 + K0 and T0 + K0 <= hi and lo <= T1 + K0 and T1 + K0 <= hi)
     c = circle_of(Zr, "Zr", T0, T1)
+    assert c.getThermalExpansionFactor() > 0
+
+
+@lemma(gen={"T0": (640.0, 649.8), "T1": (649.9, 660.0)}, overrides=OV)
+def uranium_oxide_component_is_never_refused_in_range(T0: float, T1: float):
+    """REFUTED over the reals: UraniumOxide, T0 and T1 in the stated range [273, 3123] K"""
+    (lo, hi), u = UraniumOxide.propertyValidTemperature["linear expansion percent"]
+    assume(lo <= T0 + K0 and T0 + K0 <= hi and lo <= T1 + K0 and T1 + K0 <= hi)
+    c = circle_of(UraniumOxide, "UraniumOxide", T0, T1)
     assert c.getThermalExpansionFactor() > 0
